@@ -12,7 +12,9 @@ fn dummy_params() -> PreflateParameters {
 /// CONTRACT of decompress_deflate_stream as the scanner relies on it (discharged for the parser
 /// by k07a/k07b/k03e: compressed_size is the byte cursor after the last block, hence in 1..=len):
 ///   Err, or Ok(r) with 1 <= r.compressed_size <= input.len(); plaintext on either side of 1024.
+pub static mut DEC_LAST_LEN: usize = 0x5EED_0000_0000_001C; // length of the slice the last analysis call was given
 pub fn contract_decompress(compressed_data: &[u8], _verify: bool, _loglevel: u32) -> core::result::Result<DecompressResult, crate::preflate_error::PreflateError> {
+    unsafe { DEC_LAST_LEN = compressed_data.len(); }
     if compressed_data.is_empty() || kani::any() {
         return Err(crate::preflate_error::PreflateError::new(ExitCode::InvalidDeflate, ""));
     }
@@ -244,6 +246,7 @@ kproof! {
         let data: [u8; 34] = kani::any();
         let n: usize = kani::any();
         kani::assume(n <= 34);
+        unsafe { DEC_LAST_LEN = 0; }
         let r = parse_zip_stream(&data[..n]);
         if let Ok((h, res)) = &r {
             assert!(*h >= 30 && *h + res.compressed_size <= n);
@@ -252,6 +255,13 @@ kproof! {
             let el = u16::from_le_bytes([data[28], data[29]]) as usize;
             assert!(*h == 30 + nl + el, "zip data offset differs from 30 + name length + extra length");
             assert!(data[0] == 0x50 && data[1] == 0x4b && data[2] == 3 && data[3] == 4 && data[8] == 8 && data[9] == 0, "accepted without signature or with a method other than 8");
+            // C06: the analysis must see the whole embedded stream.  With a data descriptor (general purpose bit 3) or a
+            // zero size field the local header does not say where the stream ends, so only "everything behind the
+            // header" is right; otherwise at least the declared number of bytes must be handed over.
+            let slice = unsafe { DEC_LAST_LEN };
+            let declared = u32::from_le_bytes([data[18], data[19], data[20], data[21]]) as usize;
+            if (data[6] & 8) != 0 || declared == 0 { assert!(slice == n - *h, "zip entry with a data descriptor: the analysis is not given the bytes behind the header"); }
+            else { assert!(slice >= core::cmp::min(n - *h, declared), "the analysis is given fewer bytes than the zip header declares"); }
         }
         kani::cover!(r.is_ok(), "accepted");
         kani::cover!(r.is_ok() && data[26] == 2 && data[28] == 1, "name and extra present");
@@ -462,9 +472,14 @@ pub static mut FIRST_ZLIB_ACCEPT: u32 = 0x5EED_0018; // flag: 1 = set
 pub static mut DEC_CALLS: u32 = 0x5EED_0019;
 /// CONTRACT of next_signature: None (index untouched), or Some(kind) with the new index in old..=len-2.
 /// Kind and position of every hit are symbolic.  At most SIG_MAX hits per file (the stated bound).
+/// C06 at loop level: where every search for the next signature started, and where it hit
+pub const SIG_LOG_N: usize = 5;
+pub static mut SIG_START: [usize; SIG_LOG_N] = [0x5EED_0000_0000_001A; SIG_LOG_N];
+pub static mut SIG_HIT: [usize; SIG_LOG_N] = [0x5EED_0000_0000_001B; SIG_LOG_N];
 pub(crate) fn contract_next_signature(src: &[u8], index: &mut usize) -> Option<Signature> {
     // the call counter is advanced unconditionally and first, so that it stays concrete under symbolic execution
     let c = unsafe { let c = SIG_CALLS; SIG_CALLS += 1; c };
+    unsafe { if (c as usize) < SIG_LOG_N { SIG_START[c as usize] = *index; SIG_HIT[c as usize] = usize::MAX; } }
     if c >= unsafe { SIG_MAX } { return None; }
     let forced = c == 0 && unsafe { FIRST_ZLIB_ACCEPT } == 1;
     if src.len() < 2 || (!forced && kani::any()) { return None; }
@@ -472,6 +487,7 @@ pub(crate) fn contract_next_signature(src: &[u8], index: &mut usize) -> Option<S
     let i: usize = kani::any();
     kani::assume(i >= *index && i <= src.len() - 2);
     *index = i;
+    unsafe { if (c as usize) < SIG_LOG_N { SIG_HIT[c as usize] = i; } }
     Some(match k { SIG_ZLIB => Signature::Zlib(0), SIG_ZIP => Signature::ZipLocalFileHeader, SIG_GZIP => Signature::Gzip, _ => Signature::IDAT })
 }
 /// 1025 bytes of plaintext nobody reads: a real heap allocation (so that a native replay may drop it), not initialised
@@ -553,6 +569,7 @@ fn scan_cursor_x<const HITS: usize>(first_zlib_accept: bool) {
     let mut index = 0usize;
     let mut i = 0;
     let mut streams = 0;
+    let mut stream_end = [usize::MAX; HITS];
     while i < 2 * HITS + 1 {
         if i < locs.len() {
             match &locs[i] {
@@ -560,11 +577,11 @@ fn scan_cursor_x<const HITS: usize>(first_zlib_accept: bool) {
                     assert!(*k <= n - index, "literal chunk longer than the remaining file (expand would slice out of range)");
                     index += *k;
                 }
-                BlockChunk::DeflateStream(r) => { index += r.compressed_size; streams += 1; }
+                BlockChunk::DeflateStream(r) => { index += r.compressed_size; if streams < HITS { stream_end[streams] = index; } streams += 1; }
                 BlockChunk::IDATDeflate(id, r) => {
                     assert!(id.chunk_sizes.len() == 1);
                     assert!(id.chunk_sizes[0] as usize == r.compressed_size + 6, "a PNG chunk is emitted that recreate_idat will reject (chunk sizes != stream length + 6)");
-                    index += id.total_chunk_length; streams += 1;
+                    index += id.total_chunk_length; if streams < HITS { stream_end[streams] = index; } streams += 1;
                 }
             }
             assert!(index <= n, "chunks overrun the file");
@@ -572,6 +589,24 @@ fn scan_cursor_x<const HITS: usize>(first_zlib_accept: bool) {
         i += 1;
     }
     assert!(index == n, "chunks do not tile the file");
+    // C06: the scanner probes every offset that is not inside an accepted stream: the first search starts at 0, and the
+    // search after a hit at h starts at h + 1 (hit rejected) or exactly at the end of a stream emitted for that hit
+    unsafe {
+        let calls = SIG_CALLS as usize;
+        assert!(calls >= 1 && SIG_START[0] == 0, "the first signature search does not start at offset 0");
+        let mut c = 1;
+        while c < SIG_LOG_N {
+            if c < calls && SIG_HIT[c - 1] != usize::MAX {
+                let h = SIG_HIT[c - 1];
+                let mut at_stream_end = false;
+                let mut k = 0;
+                while k < HITS { if stream_end[k] != usize::MAX && stream_end[k] == SIG_START[c] && stream_end[k] > h { at_stream_end = true; } k += 1; }
+                assert!(SIG_START[c] <= h + 1 || at_stream_end, "offsets behind a signature hit are skipped although no stream was accepted there (an embedded stream starting in the skipped range is never found)");
+                assert!(SIG_START[c] > h || at_stream_end, "the search does not move past a rejected hit");
+            }
+            c += 1;
+        }
+    }
     kani::cover!(streams == HITS, "every hit accepted");
     kani::cover!(first_zlib_accept || (streams == 0 && n > 2), "nothing accepted");
     core::mem::forget(locs);
